@@ -59,6 +59,27 @@ func c13Gen(t *rapid.T) c13Case {
 		return c
 	}
 	c.Cfg = rapid.SampledFrom(shardPick([]sut.Config{{ServerConns: 1}, {ServerConns: 2}, {ServerConns: 1, Password: "pw"}}, 2)).Draw(t, "cfg")
+	if rapid.IntRange(0, 11).Draw(t, "massmove") == 0 {
+		// a reshard the proxy has not heard of yet: one split request whose 17-60 fragments are all redirected
+		n := rapid.IntRange(17, 60).Draw(t, "nmoved")
+		name := rapid.SampledFrom([]string{"mget", "del", "mset"}).Draw(t, "massname")
+		r := Req{Name: Bin(name)}
+		seen := map[int]bool{}
+		for len(seen) < n {
+			slot := rapid.IntRange(0, 16383).Draw(t, "massslot")
+			if seen[slot] {
+				continue
+			}
+			seen[slot] = true
+			c.Spec.Moved = append(c.Spec.Moved, SlotNode{Slot: slot, Node: (c13NodeOf(slot) + 1 + rapid.IntRange(0, 1).Draw(t, "to")) % 3})
+			r.Args = append(r.Args, keyFor(slot, 0, 0, len(seen)))
+			if name == "mset" {
+				r.Args = append(r.Args, Bin(fmt.Sprintf("v%d", len(seen))))
+			}
+		}
+		c.Spec.Clients = []ClientSpec{{Reqs: []Req{r, {Name: Bin("get"), Args: []Bin{keyFor(100, 0, 1, 0)}}}}}
+		return c
+	}
 	// choose which of the pool slots moved / are migrating
 	for _, s := range c13SlotPool {
 		switch rapid.IntRange(0, 4).Draw(t, "slotstate") {
@@ -414,6 +435,9 @@ func c13Classify(c *c13Case) (bool, []string) {
 }
 
 func c13ClassifyBase(c *c13Case) (bool, []string) {
+	if len(c.Spec.Moved) >= 17 {
+		return true, []string{"split-request-with-17-or-more-redirected-fragments"}
+	}
 	if c.Hung != nil {
 		return true, []string{"redirection-names-a-node-that-never-answers-with-a-timeout-configured"}
 	}
